@@ -362,6 +362,8 @@ def eval_doc_import(f, import_ok, open_ok, others_ok):
                 return E.Tok("id-of-capability")
             if name == "default" and not args:
                 return E.Tok("default-opts")
+            if name == "deref" and args:
+                return args[0]
             return None
         if kind == "await" and name.startswith("handle."):
             m = name[len("handle."):]
@@ -374,7 +376,7 @@ def eval_doc_import(f, import_ok, open_ok, others_ok):
         return None
     req = E.struct(f, "api::protocol::ImportRequest", capability=E.Tok("capability"))
     try:
-        out, hp, ev = E.run_async(f, DOC_IMPORT, [E.href("self"), req], {"self": E.Tok("rpc-actor")}, oracle)
+        out, hp, ev = E.run_async(f, DOC_IMPORT, [E.href("self"), req], {"self": E.Tok("rpc-actor")}, oracle, inline=tuple(p for p in f.bodies if p.startswith("api::actor::RpcActor::")))
         r = out
         if r is not None and r[0] == "adt" and r[1] == E.RESULT and r[2] == 0:
             resp = r[3][0]
